@@ -217,7 +217,15 @@ func TestVerifLruCorrespondence(t *testing.T) {
 				}
 				// C05 oracle: present immediately after an accepted add (sequential histories)
 				if ok {
-					if _, present := h.c.cache[k]; !present {
+					// "fits": the item fits next to what is reserved for uploads in flight
+					// (the corner res + rounded(new) > maxSize on an overwrite is characterised by
+					// theorem add_ok_absent_iff and cannot occur in a sequential history, where res = 0)
+					fits := h.c.reservedSize+(od+4095)/4096*4096 <= max
+					_, present := h.c.cache[k]
+					if !present {
+						rec.Count("add-ok-self-evicted")
+					}
+					if !present && fits {
 						rec.Violation("C05", "lru.add.true-absent", "Add returned true but the key is absent", rec.CaseOps())
 					}
 				} else if h.state() != beforeState {
